@@ -235,6 +235,8 @@ def _append_once(sa, sb, asserts_b, k, tape):
     a, b = mk_pair(sa, sb, asserts_b)
     a_orig, code_a, counter_a = snapshot(a)
     b_orig, code_b, counter_b = snapshot(b)
+    for s in (*a_orig, *b_orig):
+        s.used_variables()  # warm dependency caches, as any earlier dependency query leaves them
     randomness.RNG = L.Tape(tape, 0)
     what = f"{code_a!r}.append_test_case_from({code_b!r}, {k}) with candidate choices {tape}"
     try:
@@ -272,6 +274,8 @@ def _splice_once(sa, sb, p1, p2, length, tape, full=True):
     na, nb = a.size(), b.size()
     a_orig, counter_a, b_orig = a.statements(), a._var_counter, b.statements()  # noqa: SLF001
     code_a, code_b = (a.to_code(), b.to_code()) if full else ("<a>", "<b>")
+    for s in (*a_orig, *b_orig):
+        s.used_variables()  # warm dependency caches, as any earlier dependency query leaves them
     config.configuration.search_algorithm.chromosome_length = length
     randomness.RNG = L.Tape(tape, 0)
     ca, cb = L.chromosome(a), L.chromosome(b)
